@@ -77,6 +77,7 @@ const (
 	sigQueryDiffers    = "C17/registry/grpc-query-disagrees-with-store"
 	sigGenesisFlags    = "C17/registry/genesis-flags-not-honoured"
 	sigInvalidStored   = "C17/registry/stored-metadata-invalid"
+	sigParamsNotAsSet  = "C17/registry/params-not-as-governance-set"
 )
 
 // ------------------------------------------------------------------ encoding of strings as numbers (injective; "" = 1)
@@ -382,6 +383,13 @@ type world struct {
 	// which step's resulting state each height committed during the case holds (-1 = the initial state)
 	verStep map[int64]int
 	curStep int
+	// the module parameters as governance last SET them: what the registry held when the generated steps began, then the
+	// NewParams of every update-params message of the governance authority that was applied, as the message arrived
+	// (decoded from transaction bytes).  Kept from the messages the driver sent, never read back from the store.
+	govSet cpctypes.Params
+	// scripted steps still to come (runCase): "wl-one" / "wl-empty" update-params by governance, "deploy-by-removed"
+	script    []string
+	scriptKey *itutiltypes.TestAccount
 }
 
 var denomPool = []string{"uatom", "ibc/27394FB092D2ECCD56123C74F36E4C1F926001CEADA9CA97EA622B25F41E5EB2", "factory/evm1xyz/sub", "uzero", "uosmo", "Token-1.x:y"}
@@ -790,6 +798,20 @@ func (w *world) runHandler(msg sdk.Msg, decode func([]byte) *common.Address) (ou
 	return opResult{class: "ok", addr: decode(res.MsgResponses[0].Value)}
 }
 
+// overTheWire: the message as it arrives at a node: put into a transaction (as a proposal's messages are put into
+// MsgSubmitProposal and kept as Any in the gov store), encoded, and decoded again by the application's TxDecoder.
+// What protobuf cannot carry (an empty repeated field vs an absent one, ...) is gone afterwards.
+func (w *world) overTheWire(msg sdk.Msg) sdk.Msg {
+	raw := &RawTx{Msgs: []sdk.Msg{msg}, Gas: 3_000_000}
+	bz, err := raw.Encode()
+	require.NoError(w.t, err)
+	tx, err := w.c.S.EncodingConfig.TxConfig.TxDecoder()(bz)
+	require.NoError(w.t, err)
+	msgs := tx.GetMsgs()
+	require.Len(w.t, msgs, 1)
+	return msgs[0]
+}
+
 // runDirect: the message server called by code in the same binary (no ValidateBasic), on a branch written on success
 func (w *world) runDirect(f func(ctx sdk.Context) (*common.Address, error)) (out opResult) {
 	cctx, write := w.ctx().CacheContext()
@@ -929,8 +951,16 @@ func (w *world) keyOf(s string) *itutiltypes.TestAccount {
 	return nil
 }
 
-func (w *world) genParams() cpctypes.Params {
+func (w *world) genParams(cur *regState) cpctypes.Params {
 	p := cpctypes.Params{ProtocolVersion: 1}
+	if len(cur.Params.WhitelistedDeployers) > 0 && w.r.Chance(22) {
+		// governance removes every deployer: an EMPTY list (on the wire: no occurrence of the repeated field) after a non-empty one
+		p.ProtocolVersion = cur.Params.ProtocolVersion
+		if w.r.Bool() {
+			p.WhitelistedDeployers = []string{}
+		}
+		return p
+	}
 	switch w.r.Intn(12) {
 	case 0:
 		p.ProtocolVersion = 0
@@ -982,6 +1012,10 @@ type stepOut struct {
 	isGenesis    bool
 	deployAuth   *string
 	updAuthority *string
+	updApplied   *cpctypes.Params // an update-params message of the governance authority succeeded: its NewParams as decoded from the wire
+	govKnown     bool             // govBefore / govAfter are set (steps generated by runCase)
+	govBefore    cpctypes.Params  // the parameters as governance last set them, before and after the step
+	govAfter     cpctypes.Params
 	apiNew       bool
 	supplyBefore map[string]*big.Int
 	gen          *cpctypes.GenesisState
@@ -1024,16 +1058,37 @@ func (w *world) snapshotSupply() map[string]*big.Int {
 func (w *world) step(cur regState) stepOut {
 	r := w.r
 	out := stepOut{before: cur}
-	if w.api && r.Chance(12) {
+	scripted := ""
+	if len(w.script) > 0 {
+		scripted, w.script = w.script[0], w.script[1:]
+	}
+	if scripted == "" && w.api && r.Chance(12) {
 		return w.stepSetMeta(cur)
 	}
 	x := r.Intn(100)
+	switch scripted {
+	case "wl-one", "wl-empty":
+		x = 50
+	case "deploy-by-removed":
+		x = 0
+	}
 	switch {
 	case x < 38: // deploy ERC-20
 		denom := w.genDenom(&cur)
 		auth, key := w.genAuthority(&cur)
+		if scripted == "deploy-by-removed" {
+			// the key governance whitelisted two steps ago and removed one step ago, for a denomination that can get a contract
+			auth, key = w.scriptKey.GetCosmosAddress().String(), w.scriptKey
+			q := w.c.QueryCtx()
+			for _, d := range w.denoms {
+				if cur.idx(d) == nil && sdk.ValidateDenom(d) == nil && w.supplyOf(q, d).Sign() > 0 {
+					denom = d
+					break
+				}
+			}
+		}
 		msg := &cpctypes.MsgDeployErc20ContractRequest{Authority: auth, Name: w.genName(), Symbol: w.genSymbol(denom), Decimals: w.genDecimals(), MinDenom: denom}
-		if r.Chance(65) { // mostly well-formed, so that the interesting checks are reached
+		if r.Chance(65) || scripted != "" { // mostly well-formed, so that the interesting checks are reached
 			msg.Name = fmt.Sprintf("Token%c%d", 'A'+rune(r.Intn(26)), r.Intn(1000))
 			msg.Symbol = fmt.Sprintf("W%c%d", 'A'+rune(r.Intn(26)), r.Intn(100))
 			msg.Decimals = []uint32{6, 18, 8, 1}[r.Intn(4)]
@@ -1067,6 +1122,7 @@ func (w *world) step(cur regState) stepOut {
 				return &a, nil
 			})
 		}
+		out.label += fmt.Sprintf(" by=%q", msg.Authority)
 		out.deployAuth = &msg.Authority
 		out.kind = fmt.Sprintf("SOp (MDeployErc20 %s %s %s %s %s %s %s %s)", CqBool(vb), CqBool(w.extOkErc20(msg)), CqBool(sdk.ValidateDenom(denom) == nil),
 			cz(enc(msg.Authority)), cz(enc(msg.Name)), cz(enc(msg.Symbol)), CqZu(uint64(msg.Decimals)), cz(enc(msg.MinDenom)))
@@ -1103,25 +1159,45 @@ func (w *world) step(cur regState) stepOut {
 				return &a, nil
 			})
 		}
+		out.label += fmt.Sprintf(" by=%q", msg.Authority)
 		out.deployAuth = &msg.Authority
 		out.kind = fmt.Sprintf("SOp (MDeployStaking %s %s %s %s %s)", CqBool(vb), CqBool(w.extOkStaking(msg)),
 			cz(enc(msg.Authority)), cz(enc(msg.Symbol)), CqZu(uint64(msg.Decimals)))
 	case x < 65: // update params
-		np := w.genParams()
+		np := w.genParams(&cur)
 		authority := w.gov
 		var key *itutiltypes.TestAccount
 		if r.Chance(25) {
 			key = w.pool[r.Intn(len(w.pool))]
 			authority = key.GetCosmosAddress().String()
 		}
+		switch scripted {
+		case "wl-one":
+			np = cpctypes.Params{ProtocolVersion: cur.Params.ProtocolVersion, WhitelistedDeployers: []string{w.scriptKey.GetCosmosAddress().String()}}
+			authority, key = w.gov, nil
+		case "wl-empty":
+			np = cpctypes.Params{ProtocolVersion: cur.Params.ProtocolVersion, WhitelistedDeployers: []string{}}
+			authority, key = w.gov, nil
+		}
 		msg := &cpctypes.MsgUpdateParams{Authority: authority, NewParams: np}
 		if key != nil && r.Chance(60) {
 			out.label = "params/tx"
 			out.res = w.runTx(key, msg, decodeNone, nil, &out)
 		} else {
+			// what the gov module executes when a proposal passes: the message decoded from bytes, handed to the router
 			out.label = "params/router"
-			out.res = w.runHandler(msg, decodeNone)
+			arrived, isUpd := w.overTheWire(msg).(*cpctypes.MsgUpdateParams)
+			require.True(w.t, isUpd)
+			out.res = w.runHandler(arrived, decodeNone)
+			if out.res.class == "ok" && arrived.Authority == w.gov {
+				ap := arrived.NewParams
+				out.updApplied = &ap
+			}
 		}
+		if len(cur.Params.WhitelistedDeployers) > 0 && len(np.WhitelistedDeployers) == 0 && authority == w.gov {
+			w.side.Count("params:governance-empties-non-empty-whitelist:" + out.res.class)
+		}
+		out.label += fmt.Sprintf(" version=%d whitelist=%q governance=%v", np.ProtocolVersion, np.WhitelistedDeployers, authority == w.gov)
 		out.updAuthority = &msg.Authority
 		out.kind = fmt.Sprintf("SOp (MUpdateParams %s %s)", CqBool(authority == w.gov), paramsCoq(np))
 	case x < 78: // Disabled toggle through the keeper (what an upgrade handler would do)
@@ -1266,7 +1342,7 @@ func (w *world) stepSetMeta(cur regState) stepOut {
 
 func (w *world) genGenesis(i int) (cpctypes.GenesisState, string) {
 	r := w.r
-	g := cpctypes.GenesisState{Params: w.genParams(), DeployErc20Native: i&1 != 0, DeployStakingContract: i&2 != 0}
+	g := cpctypes.GenesisState{Params: w.genParams(&regState{}), DeployErc20Native: i&1 != 0, DeployStakingContract: i&2 != 0}
 	if r.Chance(85) { // mostly a genesis a chain can start from
 		g.Params.ProtocolVersion = 1
 		var wl []string
@@ -1806,15 +1882,26 @@ func (w *world) oracleStep(o *stepOut, desc interface{}) {
 			if o.apiNew {
 				continue // SetCustomPrecompiledContractMeta(..., newDeployment=true) called by the harness itself
 			}
+			// the whitelist is the one governance last set (from the messages sent), not whatever the store holds
+			list, which := b.Params.WhitelistedDeployers, "the stored whitelist"
+			if o.govKnown {
+				list, which = o.govBefore.WhitelistedDeployers, "the whitelist as governance last set it"
+			}
 			wl := false
 			if o.deployAuth != nil {
-				for _, x := range b.Params.WhitelistedDeployers {
+				for _, x := range list {
 					wl = wl || x == *o.deployAuth
 				}
 			}
 			if !wl {
-				w.hit(sigDeployNoWl, fmt.Sprintf("contract %s appeared by step %s although the authority is not on the whitelist", m.Key.Hex(), o.label), desc)
+				w.hit(sigDeployNoWl, fmt.Sprintf("contract %s appeared by step %s although the authority is not on %s %q", m.Key.Hex(), o.label, which, list), desc)
 			}
+		}
+		if o.govKnown && !reflectParamsEqual(a.Params, o.govAfter) {
+			// stored params != NewParams of the last update-params message of governance that was applied
+			// (before any such message: what the registry held when the steps began)
+			w.hit(sigParamsNotAsSet, fmt.Sprintf("after step %s the stored params are {version %d, whitelist %q}; governance last set {version %d, whitelist %q}",
+				o.label, a.Params.ProtocolVersion, a.Params.WhitelistedDeployers, o.govAfter.ProtocolVersion, o.govAfter.WhitelistedDeployers), desc)
 		}
 		if !reflectParamsEqual(a.Params, b.Params) && (o.updAuthority == nil || *o.updAuthority != w.gov) {
 			w.hit(sigParamsNoGov, fmt.Sprintf("params changed by step %s", o.label), desc)
@@ -2107,6 +2194,7 @@ func runCase(t *testing.T, cases *CasesFile, side *Sidecar, i int, kind string, 
 	}
 	probes := map[int][]probeObs{}
 	w.curStep = len(steps) - 1
+	w.govSet = cur.Params // what genesis / the chain as found left: the baseline of "as governance set it"
 	w.commitBlock(nil) // the state the generated steps start from is a committed version (historic queries can name it)
 	// a few denominations get supply so that deployments by message do succeed
 	var forced []string
@@ -2116,6 +2204,12 @@ func runCase(t *testing.T, cases *CasesFile, side *Sidecar, i int, kind string, 
 		}
 	}
 	nsteps := len(forced) + 4 + r.Intn(11)
+	// every other case: governance whitelists one key, then empties the whitelist, then that key tries to deploy
+	scriptAt := -1
+	if i%2 == 1 {
+		nsteps += 3
+		scriptAt = len(forced) + r.Intn(nsteps-len(forced)-2)
+	}
 	first := len(steps)
 	probeAt := map[int]bool{}
 	probeAt[first+nsteps-1] = true
@@ -2128,9 +2222,18 @@ func runCase(t *testing.T, cases *CasesFile, side *Sidecar, i int, kind string, 
 		if k < len(forced) {
 			o = w.stepSupply(cur, forced[k], big.NewInt(int64(1+r.Intn(1_000_000))))
 		} else {
+			if k == scriptAt {
+				w.script = []string{"wl-one", "wl-empty", "deploy-by-removed"}
+				w.scriptKey = w.pool[r.Intn(len(w.pool))]
+			}
 			o = w.step(cur)
 		}
 		o.after = readReg(t, c.App, c.QueryCtx())
+		o.govKnown, o.govBefore = true, w.govSet
+		if o.updApplied != nil {
+			w.govSet = *o.updApplied
+		}
+		o.govAfter = w.govSet
 		steps = append(steps, o)
 		cur = o.after
 		idx := len(steps) - 1
